@@ -43,6 +43,8 @@ example : vlq 255 = [0x80, 0x7f] := by simp [vlq, vlqPre]
 example : vlq 256 = [0x81, 0x00] := by simp [vlq, vlqPre]
 example : vlq 16511 = [0xff, 0x7f] := by simp [vlq, vlqPre]
 example : vlq 16512 = [0x80, 0x80, 0x00] := by simp [vlq, vlqPre]
+-- NOTE (observation, not part of the property): the comments call the encoding order-preserving under
+-- byte-wise comparison; that holds within one encoded length only: 16511 ↦ ff 7f sorts AFTER 16512 ↦ 80 80 00.
 example : vlq 32895 = [0x80, 0xff, 0x7f] := by simp [vlq, vlqPre]
 example : vlq 2113663 = [0xff, 0xff, 0x7f] := by simp [vlq, vlqPre]
 example : vlq 270549119 = [0xff, 0xff, 0xff, 0x7f] := by simp [vlq, vlqPre]
